@@ -55,8 +55,10 @@ def r2(c):
         k = sel[0]['futures'].index(sl[0])
         e = sel[0]['arms'].get(k)
         c.ob('timer-arm', e is not None and b.dominates(e, ('b', i)), 'it is built on the select arm of the deadline timer', '', loc_of(b, i, stmt=st))
-        xs = [y for y in q.exits(b) if y['kind'] == 'agg' and y['variant'] == 'Err' and q.agg_variant_of(b, y['rv']['a'][0]) == (RE, 'ResponseTimeout')]
-        c.ob('returned', len(xs) == 1 and e is not None and b.dominates(e, xs[0]['node']), 'and returned as the transaction\'s error', '', loc_of(b))
+        rs = b.reach_set(('b', i)) | {('b', i)}
+        xs = [y for y in q.exits(b) if y['node'] in rs]
+        c.ob('returned', bool(xs) and all(q.exit_is_failure(b, y) for y in xs), 'and from there the transaction can only end with an error (the timeout is what the caller gets)',
+             '%d exits reachable, %d of them not error exits' % (len(xs), len([y for y in xs if not q.exit_is_failure(b, y)])), loc_of(b))
 
 
 @rule('C12', 'R12.3', 'counter discipline: reset at session start and on every non-timeout outcome, increment only on ResponseTimeout')
@@ -74,7 +76,8 @@ def r3(c):
         av = q.agg_variant_of(b, o)
         return av == (RE, 'ResponseTimeout')
     c.ob('increment/on-timeout', q.has_fact(b, inc.node, 'eq', is_err, is_to, facts), 'increment is dominated by err == RequestError::ResponseTimeout', '', inc.loc())
-    c.ob('increment/checked', bool(q.outcomes(b, inc).get('failure')), 'the result of increment is propagated (a reached limit ends the session)', '', inc.loc())
+    okp, how, why = q.failure_leaves(b, inc)
+    c.ob('increment/checked', okp, 'the result of increment is propagated (a reached limit ends the session)', '%s: %s' % (how, why), inc.loc())
     c.ob('increment/once', not b.in_cycle(inc.node), 'at most one increment per request', '', inc.loc())
     ex = b.calls(EXEC)
     ok_edges = []
